@@ -265,7 +265,11 @@ class Indicator(_DomainObject):
             except AttributeError:
                 pat_ver = '2.1'
 
-            errors = run_validator(self.get('pattern'), pat_ver)
+            try:
+                errors = run_validator(self.get('pattern'), pat_ver)
+            except Exception as e:
+                # the validator itself can fail on degenerate input (e.g. '')
+                raise InvalidValueError(self.__class__, 'pattern', str(e))
             if errors:
                 raise InvalidValueError(self.__class__, 'pattern', str(errors[0]))
 
